@@ -1,6 +1,7 @@
 package rules
 
 import (
+	"fmt"
 	"go/ast"
 	"go/token"
 	"go/types"
@@ -404,5 +405,158 @@ func (c *Ctx) pointerPlanRule(reach []*core.FuncInfo) {
 	}
 	if n < 1 {
 		c.S.Undecided("C04", "GUARD-PLANNED", "floor", "-", "no loop over an index of $refs resolving its value with replace.DeepestRef found below Flatten")
+	}
+}
+
+// rerunRule (C02/C05, PIPE-RERUN): the phase that merges generated definitions back tells its caller, through a
+// boolean result, that it has introduced an anonymous pointer or an inline complex schema (REF-CANONICAL's transient
+// exemption and GUARD-REINLINE rest on that flag). The caller must act on it in every mode: the loop that runs
+// pointer naming again continues whenever the flag is raised — its condition is the flag alone (`for flag { … }`), or
+// it is a `for { … }` left only under `!flag`. A condition that conjoins the flag with anything else (a mode, a
+// counter) drops a requested re-run, and the anonymous pointer survives a successful Flatten.
+func (c *Ctx) rerunRule(reach []*core.FuncInfo) {
+	deepest := c.P.Func("internal/flatten/replace", "DeepestRef")
+	reinline := c.P.Func("internal/flatten/replace", "UpdateRefWithSchema")
+	if deepest == nil || reinline == nil {
+		return
+	}
+	n := 0
+	for _, fi := range reach {
+		info := c.info(fi)
+		// calls of a flag-returning phase that reaches the re-inlining rewriter
+		for _, call := range calls(fi.Decl.Body) {
+			g := c.P.Funcs[c.P.StaticCallee(fi, call)]
+			if g == nil {
+				continue
+			}
+			sig := g.Obj.Type().(*types.Signature)
+			if sig.Results().Len() != 2 || !core.IsBool(sig.Results().At(0).Type()) || !core.IsErrorType(sig.Results().At(1).Type()) || !c.reachesFunc(g, reinline) {
+				continue
+			}
+			// only the outermost caller: a function that itself returns the flag just passes it on
+			if fsig := fi.Obj.Type().(*types.Signature); fsig.Results().Len() == 2 && core.IsBool(fsig.Results().At(0).Type()) {
+				continue
+			}
+			as, ok := c.parents(fi)[call].(*ast.AssignStmt)
+			if !ok || len(as.Lhs) < 1 {
+				continue
+			}
+			flag := core.ObjOf(info, as.Lhs[0])
+			if flag == nil {
+				continue
+			}
+			// the loop of this function that names pointers again
+			var loop *ast.ForStmt
+			ast.Inspect(fi.Decl.Body, func(nd ast.Node) bool {
+				fs, isFor := nd.(*ast.ForStmt)
+				if !isFor {
+					return true
+				}
+				for _, inner := range calls(fs.Body) {
+					if h := c.P.Funcs[c.P.StaticCallee(fi, inner)]; h != nil && c.reachesFunc(h, deepest) {
+						loop = fs
+					}
+				}
+				return true
+			})
+			key := fi.QName() + "<-" + g.Obj.Name()
+			if n++; loop == nil {
+				for _, pr := range []string{"C02", "C05"} {
+					c.S.Violate(pr, "PIPE-RERUN", key, c.P.Pos(call.Pos()),
+						"the flag returned by "+g.Obj.Name()+" (an anonymous pointer or an inline complex schema was introduced) is not followed by a loop that names pointers again: the pointer survives a successful Flatten")
+				}
+				return
+			}
+			ok2, why := false, ""
+			switch {
+			case loop.Cond != nil:
+				cond := core.Unparen(loop.Cond)
+				if core.ObjOf(info, cond) == flag {
+					ok2 = true
+				} else {
+					why = "the loop that names pointers again runs under `" + exprStr(loop.Cond) + "`, not under the flag alone: a re-run requested by " + g.Obj.Name() + " is dropped when the rest of the condition is false"
+				}
+			default:
+				// for { … if !flag { leave } … }
+				ast.Inspect(loop.Body, func(nd ast.Node) bool {
+					ifs, isIf := nd.(*ast.IfStmt)
+					if !isIf || !core.BlockLeaves(info, ifs.Body) {
+						return true
+					}
+					if u, isNot := core.Unparen(ifs.Cond).(*ast.UnaryExpr); isNot && u.Op == token.NOT && core.ObjOf(info, u.X) == flag {
+						ok2 = true
+					}
+					return true
+				})
+				if !ok2 {
+					why = "the unconditional loop that names pointers again is not left under `!" + flag.Name() + "` alone"
+				}
+			}
+			for _, pr := range []string{"C02", "C05"} {
+				c.S.Decide(ok2, pr, "PIPE-RERUN", key, c.P.Pos(loop.Pos()),
+					"pointer naming runs again whenever "+g.Obj.Name()+" reports that it introduced a pointer or an inline schema, in every mode",
+					why+": the anonymous pointer it introduced is never named and remains in the output of a successful Flatten")
+			}
+			return
+		}
+	}
+	if n == 0 {
+		c.S.Note("PIPE-RERUN: no caller of a flag-returning re-inlining phase found below Flatten (one on the pinned tree: stripPointersAndOAIGen <- stripOAIGen)")
+	}
+}
+
+// resolvedVsRaw (C02, REF-EQ-RESOLVED): two `$ref`s are compared as strings only at the same level of resolution. The
+// value of a loop over an index of `$ref`s is what the document holds (raw); the Ref member of a resolution result or
+// of a planned record is what a chain of pointers finally designates (resolved). Comparing one of each finds the
+// direct referers only: a referer that reaches the target through another pointer is missed, and is left pointing at
+// an anonymous location.
+func (c *Ctx) resolvedVsRaw(reach []*core.FuncInfo) {
+	for _, fi := range reach {
+		if fi.Pkg.PkgPath != core.ModPath {
+			continue
+		}
+		info := c.info(fi)
+		level := func(e ast.Expr) string {
+			call, ok := core.Unparen(e).(*ast.CallExpr)
+			if !ok || len(call.Args) != 0 {
+				return ""
+			}
+			sel, ok := core.Unparen(call.Fun).(*ast.SelectorExpr)
+			if !ok || sel.Sel.Name != "String" || !core.IsSpecType(info.TypeOf(sel.X), "Ref") {
+				return ""
+			}
+			x := core.Unparen(sel.X)
+			// raw: the value variable of a range over a map[string]spec.Ref
+			if o := core.ObjOf(info, x); o != nil {
+				for _, d := range c.P.Locals(fi).Defs[o] {
+					if d.Kind == core.DefRangeVal && core.IsMap(info.TypeOf(d.Expr)) {
+						return "raw"
+					}
+				}
+			}
+			// resolved: the Ref member of a resolution result or of a record of the module (SchemaRef, DeepestRefResult)
+			if fs, isSel := x.(*ast.SelectorExpr); isSel && fs.Sel.Name == "Ref" {
+				if pk, tn := core.NamedOf(info.TypeOf(fs.X)); strings.HasPrefix(pk, core.ModPath) && (tn == "SchemaRef" || tn == "DeepestRefResult") {
+					return "resolved"
+				}
+			}
+			return ""
+		}
+		k := 0
+		ast.Inspect(fi.Decl.Body, func(nd ast.Node) bool {
+			be, ok := nd.(*ast.BinaryExpr)
+			if !ok || be.Op != token.EQL && be.Op != token.NEQ {
+				return true
+			}
+			lx, ly := level(be.X), level(be.Y)
+			if lx == "" || ly == "" {
+				return true
+			}
+			k++
+			c.S.Decide(lx == ly, "C02", "REF-EQ-RESOLVED", fmt.Sprintf("%s/cmp#%d", fi.QName(), k), c.P.Pos(be.Pos()),
+				"the two $refs compared are at the same level of resolution ("+lx+")",
+				"`"+exprStr(be)+"` compares a $ref as the document holds it ("+map[bool]string{true: exprStr(be.X), false: exprStr(be.Y)}[lx == "raw"]+") with a resolved one: a referer that reaches the target through another anonymous pointer is not recognised as a caller, the target is expanded in place as if it had one caller, and the indirect referer keeps its anonymous pointer")
+			return true
+		})
 	}
 }
